@@ -124,6 +124,7 @@ func buildChain(st []Stage, path string, bid *int) *compose.Chain[gprog.Val, gpr
 				p.AddLambda(k, gprog.DefaultLambda(joinp(path, k), k))
 			}
 			c.AppendParallel(p)
+			elsewhere(func(o *compose.Chain[gprog.Val, gprog.Val]) { o.AppendParallel(p) })
 		case "branch":
 			id := fmt.Sprintf("chainbr%d", *bid)
 			*bid++
@@ -139,11 +140,20 @@ func buildChain(st []Stage, path string, bid *int) *compose.Chain[gprog.Val, gpr
 				b.AddLambda(k, gprog.DefaultLambda(joinp(path, k), k))
 			}
 			c.AppendBranch(b)
+			// building blocks are values: the same ChainBranch used by another chain afterwards must not change this one
+			elsewhere(func(o *compose.Chain[gprog.Val, gprog.Val]) { o.AppendBranch(b) })
 		case "chain":
 			c.AppendGraph(buildChain(s.Sub, joinp(path, "sub"), bid))
 		}
 	}
 	return c
+}
+
+// elsewhere uses a building block a second time, in a throw-away chain that already has one stage.
+func elsewhere(use func(o *compose.Chain[gprog.Val, gprog.Val])) {
+	o := compose.NewChain[gprog.Val, gprog.Val]()
+	o.AppendLambda(gprog.DefaultLambda("elsewhere", "elsewhere"))
+	use(o)
 }
 
 func joinp(a, b string) string {
